@@ -224,7 +224,11 @@ class ListS(Spec):
         elem = self.elem
 
         def mk(s1):
-            return elem.make(ex, s1)
+            e = elem.make(ex, s1)
+            mk.instances.append(e)
+            return e
+        mk.instances = []
+        mk.spec = elem
         return TokList([Many(n, mk, self.fresh, self.name)])
 
     def check(self, ex, st, v, label, line=0):
